@@ -67,6 +67,33 @@ def fromRepo {δ : Type} (r : Repo δ) : Editor δ :=
 def addTarget {δ : Type} (e : Editor δ) (n : Nat) (t : Target) : Editor δ :=
   { e with new := some ((n, t) :: e.new.getD []) }
 
+/-- `HashMap::remove` -/
+def TMap.erase (m : TMap) (n : Nat) : TMap := m.filter (fun p => p.1 != n)
+
+/-- `remove_target`: the name goes from the targets the role already had AND from those added through
+this editor -/
+def removeTarget {δ : Type} (e : Editor δ) (n : Nat) : Editor δ :=
+  { e with existing := e.existing.map (·.erase n), new := e.new.map (·.erase n) }
+
+/-- `clear_targets` -/
+def clearTargets {δ : Type} (e : Editor δ) : Editor δ := { e with existing := some [], new := some [] }
+
+/-- an edit of the role's targets -/
+inductive TOp where
+  | add (n : Nat) (t : Target)
+  | remove (n : Nat)
+  | clear
+
+def applyOp {δ : Type} (e : Editor δ) : TOp → Editor δ
+  | .add n t => addTarget e n t
+  | .remove n => removeTarget e n
+  | .clear => clearTargets e
+
+def applyOps {δ : Type} (e : Editor δ) (ops : List TOp) : Editor δ := ops.foldl applyOp e
+
+/-- what `build_targets` will list: the existing targets extended by the new ones -/
+def listed {δ : Type} (e : Editor δ) : TMap := (e.existing.getD []).extend (e.new.getD [])
+
 inductive Err where
   | missing (what : String)
   deriving DecidableEq, Repr
